@@ -104,12 +104,13 @@ type snapshot struct {
 	inputs                 map[string]*input
 	used                   map[string]bool
 	outs                   []out
+	neff, nmat             int
 	fallible               bool
 }
 
 func (k *kctx) snap(e *env) snapshot {
 	s := snapshot{nlines: len(k.lines), ntmp: k.ntmp, nassumes: len(k.assumes), inputs: map[string]*input{}, used: map[string]bool{},
-		outs: append([]out(nil), e.outs...), fallible: k.fallible}
+		outs: append([]out(nil), e.outs...), neff: e.neff, nmat: len(k.matLog), fallible: k.fallible}
 	for p, i := range k.inputs {
 		s.inputs[p] = i
 	}
@@ -122,7 +123,13 @@ func (k *kctx) snap(e *env) snapshot {
 func (k *kctx) rollback(s snapshot, e *env) {
 	k.lines, k.ntmp, k.assumes = k.lines[:s.nlines], s.ntmp, k.assumes[:s.nassumes]
 	k.inputs, k.used, k.fallible = s.inputs, s.used, s.fallible
-	e.outs = s.outs
+	for _, v := range k.matLog[s.nmat:] { // inputs created by the abandoned attempt
+		if _, kept := k.inputs[v.prov]; !kept {
+			v.term = ""
+		}
+	}
+	k.matLog = k.matLog[:s.nmat]
+	e.outs, e.neff = s.outs, s.neff
 }
 
 // tryInline evaluates the call by executing the callee's body on the argument values.
@@ -157,7 +164,7 @@ func (k *kctx) tryInline(fd *ast.FuncDecl, recv *value, x *ast.CallExpr, e *env,
 		}
 	}()
 	args := k.args(x, e) // in the caller's context, left to right
-	ce := &env{vars: map[string]*value{}, outs: e.outs}
+	ce := &env{vars: map[string]*value{}, outs: e.outs, neff: e.neff}
 	if recv != nil && fd.Recv != nil && len(fd.Recv.List[0].Names) == 1 {
 		_, ptr := recvTypeName(fd)
 		rv := recv
@@ -198,7 +205,7 @@ func (k *kctx) tryInline(fd *ast.FuncDecl, recv *value, x *ast.CallExpr, e *env,
 	}
 	k.resultInfo(fd.Type)
 	res = k.inlineBody(fd, ce, nres)
-	e.outs = ce.outs
+	e.outs, e.neff = ce.outs, ce.neff
 	if nres == 0 {
 		res = []*value{{t: tOpaque, prov: "void", src: "void"}}
 	}
@@ -243,6 +250,23 @@ func (k *kctx) inlineBody(fd *ast.FuncDecl, ce *env, nres int) []*value {
 			}
 			k.exprStmt(s.X, ce)
 		case *ast.IfStmt:
+			// `if c { return nil... }; return <error>` is `if !c { return <error> }; return nil...`
+			if i == len(stmts)-2 && s.Init == nil && s.Else == nil && len(s.Body.List) == 1 {
+				r1, ok1 := s.Body.List[0].(*ast.ReturnStmt)
+				r2, ok2 := stmts[i+1].(*ast.ReturnStmt)
+				if ok1 && ok2 && allNil(r1) && len(r1.Results) == nres && k.retFails(r2) {
+					cv := k.expr(s.Cond, ce)
+					if cv.t != tBool {
+						k.refuse(s.Cond, "condition of type %s", cv.t)
+					}
+					k.guard(k.term(cv, s.Cond))
+					var vs []*value
+					for range r1.Results {
+						vs = append(vs, &value{t: tNil})
+					}
+					return vs
+				}
+			}
 			k.simpleIf(s, ce)
 		case *ast.EmptyStmt:
 		default:
@@ -253,6 +277,18 @@ func (k *kctx) inlineBody(fd *ast.FuncDecl, ce *env, nres int) []*value {
 		k.refuse(fd, "helper without a final return")
 	}
 	return nil
+}
+
+func allNil(r *ast.ReturnStmt) bool {
+	if len(r.Results) == 0 {
+		return false
+	}
+	for _, x := range r.Results {
+		if id, ok := x.(*ast.Ident); !ok || id.Name != "nil" {
+			return false
+		}
+	}
+	return true
 }
 
 // simpleIf: the conditionals allowed in an inlined helper: an external guard, an error guard, a conditional reassignment.
